@@ -1019,7 +1019,11 @@ class Steward():
         data['body'] = self.requestant.body.decode('utf-8', errors='replace')
         data['data'] = copy.copy(self.requestant.data)  # make copy
 
-        msg = self.responder.build(status=200, data=data)
+        try:
+            msg = self.responder.build(status=200, data=data)
+        except RecursionError:  # parsed data nested too deep to serialize one level down
+            data['data'] = None  # same as when dictify finds it too deep to parse
+            msg = self.responder.build(status=200, data=data)
         self.remoter.tx(msg)
         self.waited = not self.responder.ended
 
